@@ -72,6 +72,11 @@ typedef struct radius_pkt_attr_s *rad_pkt_attr_p;
 	    2 <= VF_RAD_B(pkt, (off) + 1) && VF_RAD_B(pkt, (off) + 1) <= VF_RAD_LEN(pkt) - (off))
 #define VF_RAD_PTR_AT(q, pkt, off)						\
 	(__CPROVER_same_object((q), (pkt)) && VF_OFF(q) - VF_OFF(pkt) == (off))
+/* returned pointer into the packet: in a replaced contract the pointer must be CONSTRUCTED inside
+ * the packet object (pointer_in_range assigns base + nondet offset when assumed); a merely
+ * havocked-and-constrained pointer is not followed by CBMC's dereferencing */
+#define VF_RAD_RET_PTR(q, T, pkt)							\
+	__CPROVER_pointer_in_range_dfcc((T)(pkt), (q), (T)((uint8_t *)(pkt) + VF_RAD_LEN(pkt)))
 #define VF_RAD_KEEP(p)		((p) == NULL || *(p) == __CPROVER_old(*(p)))
 
 /* ------------------------------------------------------------------------------
@@ -111,7 +116,9 @@ __CPROVER_ensures(VF_RV == 0 || VF_RV == EINVAL || VF_RV == EBADMSG)
 __CPROVER_ensures((VF_RV == EINVAL) == (pkt == NULL || attr_ret == NULL ||
     offset < VF_RAD_HDR_SIZE || offset > VF_RAD_LEN(pkt)))
 /* the returned attribute, header and value, lies inside the packet */
-__CPROVER_ensures(VF_RV == 0 ==> (VF_RAD_ATTR_AT(pkt, offset) && VF_RAD_PTR_AT(*attr_ret, pkt, offset)))
+__CPROVER_ensures(VF_RV == 0 ==> VF_RAD_ATTR_AT(pkt, offset))
+__CPROVER_ensures(VF_RV == 0 ==> (VF_RAD_RET_PTR(*attr_ret, rad_pkt_attr_p, pkt) &&
+    VF_RAD_PTR_AT(*attr_ret, pkt, offset)))
 __CPROVER_ensures(VF_RV != 0 ==> VF_RAD_KEEP(attr_ret))
 ;
 
@@ -126,15 +133,15 @@ __CPROVER_assigns(offset_ret != NULL: *offset_ret)
 __CPROVER_ensures(VF_RV == 0 || VF_RV == EINVAL || VF_RV == EBADMSG || VF_RV == VF_RAD_ENOATTR)
 __CPROVER_ensures(pkt == NULL ==> VF_RV == EINVAL)
 /* found: an attribute of the requested type, at or after the start offset, inside the packet */
-__CPROVER_ensures((VF_RV == 0 && offset_ret != NULL) ==> (VF_RAD_ATTR_AT(pkt, *offset_ret) &&
-    *offset_ret >= offset && VF_RAD_B(pkt, *offset_ret) == attr_type))
-__CPROVER_ensures((VF_RV == 0 && attr_ret != NULL) ==> (__CPROVER_same_object(*attr_ret, pkt) &&
-    VF_RAD_ATTR_AT(pkt, VF_OFF(*attr_ret) - VF_OFF(pkt)) &&
-    VF_OFF(*attr_ret) - VF_OFF(pkt) >= offset &&
-    VF_RAD_B(pkt, VF_OFF(*attr_ret) - VF_OFF(pkt)) == attr_type))
+__CPROVER_ensures((VF_RV == 0 && offset_ret != NULL) ==> VF_RAD_ATTR_AT(pkt, *offset_ret))
+__CPROVER_ensures((VF_RV == 0 && offset_ret != NULL) ==> *offset_ret >= offset)
+__CPROVER_ensures((VF_RV == 0 && offset_ret != NULL) ==> VF_RAD_B(pkt, *offset_ret) == attr_type)
+__CPROVER_ensures((VF_RV == 0 && attr_ret != NULL) ==> VF_RAD_RET_PTR(*attr_ret, rad_pkt_attr_p, pkt))
+__CPROVER_ensures((VF_RV == 0 && attr_ret != NULL) ==> VF_RAD_ATTR_AT(pkt, VF_OFF(*attr_ret) - VF_OFF(pkt)))
+__CPROVER_ensures((VF_RV == 0 && attr_ret != NULL) ==> (VF_OFF(*attr_ret) - VF_OFF(pkt) >= offset &&
+    VF_RAD_B(*attr_ret, 0) == attr_type))
 __CPROVER_ensures((VF_RV == 0 && attr_ret != NULL && offset_ret != NULL) ==>
     VF_RAD_PTR_AT(*attr_ret, pkt, *offset_ret))
-__CPROVER_ensures(VF_RV != 0 ==> (VF_RAD_KEEP(attr_ret) && VF_RAD_KEEP(offset_ret)))
 ;
 
 static inline int
@@ -144,9 +151,9 @@ __CPROVER_requires(VF_OUT_OPT(offset_ret, size_t))
 __CPROVER_assigns(offset_ret != NULL: *offset_ret)
 __CPROVER_ensures(VF_RV == 0 || VF_RV == EINVAL || VF_RV == EBADMSG || VF_RV == VF_RAD_ENOATTR)
 __CPROVER_ensures(pkt == NULL ==> VF_RV == EINVAL)
-__CPROVER_ensures((VF_RV == 0 && offset_ret != NULL) ==> (VF_RAD_ATTR_AT(pkt, *offset_ret) &&
-    *offset_ret >= offset && VF_RAD_B(pkt, *offset_ret) == attr_type))
-__CPROVER_ensures(VF_RV != 0 ==> VF_RAD_KEEP(offset_ret))
+__CPROVER_ensures((VF_RV == 0 && offset_ret != NULL) ==> VF_RAD_ATTR_AT(pkt, *offset_ret))
+__CPROVER_ensures((VF_RV == 0 && offset_ret != NULL) ==> *offset_ret >= offset)
+__CPROVER_ensures((VF_RV == 0 && offset_ret != NULL) ==> VF_RAD_B(pkt, *offset_ret) == attr_type)
 ;
 
 #define VF_RAD_DATA_OUT_PRE(type, data, len)					\
@@ -167,7 +174,8 @@ __CPROVER_ensures(VF_RV == 0 || VF_RV == EINVAL || VF_RV == EBADMSG)
 __CPROVER_ensures((VF_RV == EINVAL) == (pkt == NULL || offset < VF_RAD_HDR_SIZE || offset > VF_RAD_LEN(pkt)))
 __CPROVER_ensures(VF_RV == 0 ==> VF_RAD_ATTR_AT(pkt, offset))
 __CPROVER_ensures((VF_RV == 0 && type != NULL) ==> *type == VF_RAD_B(pkt, offset))
-__CPROVER_ensures((VF_RV == 0 && data != NULL) ==> VF_RAD_PTR_AT(*data, pkt, offset + 2))
+__CPROVER_ensures((VF_RV == 0 && data != NULL) ==> (VF_RAD_RET_PTR(*data, uint8_t *, pkt) &&
+    VF_RAD_PTR_AT(*data, pkt, offset + 2)))
 __CPROVER_ensures((VF_RV == 0 && len != NULL) ==> *len == (size_t)VF_RAD_B(pkt, offset + 1) - 2)
 /* the pointer / length pair lies inside the packet */
 __CPROVER_ensures((VF_RV == 0 && data != NULL && len != NULL) ==> VF_INSIDE(*data, *len, pkt, VF_RAD_LEN(pkt)))
@@ -184,7 +192,8 @@ __CPROVER_ensures(VF_RV == 0 || VF_RV == EINVAL || VF_RV == EBADMSG)
 __CPROVER_ensures((VF_RV == EINVAL) == (pkt == NULL || offset < VF_RAD_HDR_SIZE || offset > VF_RAD_LEN(pkt)))
 __CPROVER_ensures(VF_RV == 0 ==> VF_RAD_ATTR_AT(pkt, offset))
 __CPROVER_ensures((VF_RV == 0 && type != NULL) ==> *type == VF_RAD_B(pkt, offset))
-__CPROVER_ensures((VF_RV == 0 && data != NULL) ==> VF_RAD_PTR_AT(*data, pkt, offset + 2))
+__CPROVER_ensures((VF_RV == 0 && data != NULL) ==> (VF_RAD_RET_PTR(*data, uint8_t *, pkt) &&
+    VF_RAD_PTR_AT(*data, pkt, offset + 2)))
 __CPROVER_ensures((VF_RV == 0 && len != NULL) ==> *len <= (size_t)VF_RAD_B(pkt, offset + 1) - 2)
 __CPROVER_ensures((VF_RV == 0 && len != NULL && VF_RAD_B(pkt, offset) != 2) ==>
     *len == (size_t)VF_RAD_B(pkt, offset + 1) - 2)
@@ -200,7 +209,7 @@ __CPROVER_requires(VF_RAD_PKT(pkt))
 __CPROVER_requires(buf_size <= VF_RAD_PKT_MAX)
 __CPROVER_requires(__CPROVER_is_fresh(buf, buf_size))
 __CPROVER_requires(VF_OUT_OPT(buf_size_ret, size_t))
-__CPROVER_assigns(buf_size != 0: __CPROVER_object_upto(buf, buf_size))
+__CPROVER_assigns(__CPROVER_object_upto(buf, buf_size))
 __CPROVER_assigns(buf_size_ret != NULL: *buf_size_ret)
 __CPROVER_ensures(VF_RV == 0 || VF_RV == EINVAL || VF_RV == EBADMSG || VF_RV == VF_RAD_ENOATTR)
 /* never more than the caller's buffer holds */
